@@ -66,7 +66,7 @@ package goja
 
 // The VM registers that script is assumed to leave alone (jspreserved) but the interpreter's own
 // machinery - the run loop, unwinding, entering and leaving regions - does assign.
-//@ define vmRegs = any(vm.sp), any(vm.pc), any(vm.sb), any(vm.args), any(vm.stash), any(vm.privEnv), any(vm.tryStack), any(vm.callStack), any(tryFrame.exception), any(tryFrame.callStackLen), any(tryFrame.iterLen), any(tryFrame.refLen), any(tryFrame.sp), any(tryFrame.stash), any(tryFrame.privEnv), any(tryFrame.catchPos), any(tryFrame.finallyPos), any(tryFrame.finallyRet)
+//@ define vmRegs = any(vm.sp), any(vm.pc), any(vm.sb), any(vm.args), any(vm.stash), any(vm.privEnv), any(vm.tryStack), any(vm.callStack), any(tryFrame.exception), any(tryFrame.callStackLen), any(tryFrame.iterLen), any(tryFrame.refLen), any(tryFrame.sp), any(tryFrame.stash), any(tryFrame.privEnv), any(tryFrame.catchPos), any(tryFrame.finallyPos), any(tryFrame.finallyRet), any(tryFrame.result)
 
 // ---- unwinding
 
@@ -82,7 +82,7 @@ package goja
 // the ensures_abrupt clauses of every function that pushes a marker).
 // (The call stack is not in this list: every entry from Go into script records the height in its marker
 // and unwinding cuts the stack back to it, so a panicking callee leaves it as high as it was.)
-//@ abrupthavoc vm.tryStack vm.stash vm.privEnv tryFrame.exception tryFrame.callStackLen tryFrame.iterLen tryFrame.refLen tryFrame.sp tryFrame.stash tryFrame.privEnv tryFrame.catchPos tryFrame.finallyPos tryFrame.finallyRet
+//@ abrupthavoc vm.tryStack vm.stash vm.privEnv tryFrame.exception tryFrame.callStackLen tryFrame.iterLen tryFrame.refLen tryFrame.sp tryFrame.stash tryFrame.privEnv tryFrame.catchPos tryFrame.finallyPos tryFrame.finallyRet tryFrame.result
 //@ abruptrely *vm vm @markersKept
 //@ abruptrely *vm vm forall k int :: 0 <= k && k < len(vm.tryStack) ==> vm.tryStack[k].sp >= 0
 //@ typeinvq *vm vm forall k int :: 0 <= k && k < len(vm.tryStack) ==> vm.tryStack[k].sp >= 0
